@@ -121,3 +121,15 @@ CLAIMED['C17'] = dict(
     note=('The induction over iterations (bytes returned = stream from entry position through the first delimiter, position '
           'just past it, for any block size) is argued in DESIGN.md, not machine-checked. Stream semantics are trusted.'),
     technique='linear-form (affine) dataflow over abstract paths + call-site constant check + who-may-consume query')
+
+CLAIMED['C13'] = dict(
+    category='other',
+    text=('Abstract execution of generate_stats at the three levels on a tree with open metadata: keys read from children are '
+          'keys the children write; the only metadata mutations are storing "stats" when absent or update() of the existing '
+          'mapping; diffs that are not analysed reach no store; no stored value depends on the previous stats (idempotent); '
+          '"lines changed" is the sum of the two stored counts and container totals come from the children\'s metadata; '
+          'encoding typestate of diff bytes at the hunk parser; undeclared line endings detected from the first line only.'),
+    note=('Count exactness (the number of +/- lines inside hunks) is NOT decided: it is arithmetic over runtime diffs, '
+          'delegated to the hunk parser (C14, which does not decide geometry either). Known finding: diffs in a multi-byte '
+          'encoding count zero lines.'),
+    technique='effect analysis (mutation events on the metadata mapping) + taint (no-feedback) + key-set agreement tables')
